@@ -3,7 +3,8 @@
  *   sizes in thread_queue_init_parameters (equal sizes included), so that an object taken from a heap always has the stack
  *   size that was asked for.
  *
- * Lifted: schedulers/thread_queue.hpp  thread_queue::create_thread_object, thread_queue::recycle_thread.
+ * Lifted: schedulers/thread_queue.hpp  thread_queue::create_thread_object, thread_queue::recycle_thread; with -DQHT the same
+ *   pair of functions of schedulers/queue_holder_thread.hpp (the queues of shared_priority_queue_scheduler).
  * Hand written: C structs; the five heaps (std::vector<thread_id_type>) abstracted to "what is on top" with ONE symbolic
  *   victim object; thread_data::rebind / thread_data_stackful::create / thread_data_stackless::create / get_stack_size /
  *   scheduler_base::get_stack_size as recording stubs; contracts; harness. */
@@ -13,6 +14,9 @@ enum { thread_schedule_state_unknown = 0, thread_schedule_state_active = 1, thre
        thread_schedule_state_suspended = 3, thread_schedule_state_terminated = 4, thread_schedule_state_staged = 5,
        thread_schedule_state_pending_do_not_schedule = 6, thread_schedule_state_pending_boost = 7 };
 enum { thread_id_addref_yes = 0, thread_id_addref_no = 1 };
+enum { thread_stacksize_unknown = -1, thread_stacksize_small_ = 1, thread_stacksize_medium = 2, thread_stacksize_large = 3,
+       thread_stacksize_huge = 4, thread_stacksize_nostack = 5, thread_stacksize_current = 6,
+       thread_stacksize_default_ = 1, thread_stacksize_minimal = 1, thread_stacksize_maximal = 4 };
 
 struct thread_data { ptrdiff_t stacksize_; bool is_stackless_; };
 struct scheduler_base { int unused; };
@@ -51,6 +55,10 @@ static bool heap_empty(struct heap *h) { g_consulted_heap = h; return h->top == 
 static struct thread_data *heap_back(struct heap *h) { VX_ASSERT(h->top != NULL, "vector::back() on an empty heap"); return h->top; }
 static void heap_pop_back(struct heap *h) { VX_ASSERT(h->top != NULL, "vector::pop_back() on an empty heap"); BUMP(g_pops); h->top = NULL; }
 static void heap_push_back(struct heap *h, struct thread_data *t) { BUMP(g_pushes); g_pushed_heap = h; g_pushed_obj = t; h->top = t; }
+/* queue_holder_thread keeps std::list heaps and works at the front; with "what is on top" as the model that is the same */
+#define heap_front heap_back
+#define heap_pop_front heap_pop_back
+#define heap_push_front heap_push_back
 static struct thread_data *create_stackful(struct thread_init_data *d, struct thread_queue *q, ptrdiff_t stacksize)
 { BUMP(g_creates); g_new.stacksize_ = stacksize; g_new.is_stackless_ = false; g_created_stackless = false; return &g_new; }
 static struct thread_data *create_stackless(struct thread_init_data *d, struct thread_queue *q, ptrdiff_t stacksize)
@@ -70,17 +78,26 @@ void recycle_thread(struct thread_queue *self, struct thread_data *thrd)
 /* the object was created by this queue, i.e. with one of the configured sizes */
 __CPROVER_requires(g_pushes == 0 && IS_CONFIGURED(self, thrd->stacksize_))
 /* it ends up on exactly one free list, once (never dropped: no leak; never twice: no two tasks on one stack) */
-__CPROVER_ensures(g_pushes == 1 && g_pushed_obj == thrd && IS_HEAP_OF(self, g_pushed_heap))
+__CPROVER_ensures(g_pushes == 1 && g_pushed_obj == thrd && IS_HEAP_OF(self, g_pushed_heap) && g_pushed_heap->top == thrd)
 __CPROVER_assigns(GHOST, self->thread_heap_small_, self->thread_heap_medium_, self->thread_heap_large_, self->thread_heap_huge_, self->thread_heap_nostack_)
 #endif
 //@LIFT recycle_thread
 
 static struct thread_data *g_victim; /* an arbitrary object that recycle_thread (lifted, run by the harness) put on a free list */
 static ptrdiff_t g_victim_size;      /* its stack size (ghost copy: contracts avoid dereferencing ghost pointers) */
+#ifdef QHT /* queue_holder_thread::create_thread_object takes no lock argument */
+#define LK_PARAM
+#define LK_OWNS 1
+#define LK_FRAME
+#else
+#define LK_PARAM , struct lock *lk
+#define LK_OWNS lk->owns
+#define LK_FRAME lk->owns,
+#endif
 //@FUNC
-void create_thread_object(struct thread_queue *self, struct thread_data **thrd, struct thread_init_data *data, struct lock *lk)
+void create_thread_object(struct thread_queue *self, struct thread_data **thrd, struct thread_init_data *data LK_PARAM)
 #ifdef U_CREATE
-__CPROVER_requires(lk->owns && g_pops == 0 && g_rebinds == 0 && g_creates == 0 && IS_CONFIGURED(self, g_requested))
+__CPROVER_requires(LK_OWNS && g_pops == 0 && g_rebinds == 0 && g_creates == 0 && IS_CONFIGURED(self, g_requested))
 __CPROVER_requires(g_pushes == 1 && g_pushed_obj == g_victim && IS_HEAP_OF(self, g_pushed_heap))
 /* same heap for the same stack size */
 __CPROVER_ensures(g_victim_size == g_requested ==> g_consulted_heap == g_pushed_heap)
@@ -91,8 +108,8 @@ __CPROVER_ensures((g_rebinds >= 1 && g_reused == g_victim) ==> g_victim_size == 
 __CPROVER_ensures(g_rebinds + g_creates == 1 && g_pops == g_rebinds)
 __CPROVER_ensures(g_creates == 1 ==> (*thrd == &g_new && g_new.stacksize_ == g_requested))
 __CPROVER_ensures(g_rebinds == 1 ==> *thrd == g_reused)
-__CPROVER_ensures(lk->owns)
-__CPROVER_assigns(GHOST, *thrd, lk->owns, data->initial_state, self->thread_heap_small_, self->thread_heap_medium_, self->thread_heap_large_, self->thread_heap_huge_, self->thread_heap_nostack_)
+__CPROVER_ensures(LK_OWNS)
+__CPROVER_assigns(GHOST, *thrd, LK_FRAME data->initial_state, self->thread_heap_small_, self->thread_heap_medium_, self->thread_heap_large_, self->thread_heap_huge_, self->thread_heap_nostack_)
 #endif
 //@LIFT create_thread_object
 
@@ -126,10 +143,17 @@ void harness(void)
   struct lock lk;
   lk.owns = true;
   data.stacksize = nondet_i8(); data.initial_state = nondet_i8(); data.scheduler_base = &sb;
+#ifdef QHT
+  VX_ASSUME(data.stacksize >= thread_stacksize_minimal && data.stacksize <= thread_stacksize_nostack); /* PIKA_ASSERTs on the caller's init data */
+#endif
   g_requested = nondet_ptrdiff();
   VX_ASSUME(IS_CONFIGURED(&q, victim.stacksize_)); /* harness input domain: objects this queue created (recycle_thread's precondition) */
   recycle_thread(&q, &victim);                     /* lifted: some earlier task's object goes onto its free list */
+#ifdef QHT
+  create_thread_object(&q, &thrd, &data);
+#else
   create_thread_object(&q, &thrd, &data, &lk);
+#endif
   if (g_reused == &victim) { VX_REACH("victim_reused"); if (q.parameters_.small_stacksize_ == q.parameters_.large_stacksize_) VX_REACH("victim_reused_with_equal_sizes"); }
   if (g_rebinds == 1 && g_reused != &victim) VX_REACH("other_object_reused");
   if (g_creates == 1) { VX_REACH("new_object"); if (g_created_stackless) VX_REACH("new_stackless_object"); }
